@@ -79,7 +79,7 @@ def families(tier):
         dict(name="pin3", regions=["A"], maxgen=2, handles=["a", "b"], maxops=3, maxhi=2, opkinds=base + ["checkout"],
              prefixes=one, cap=4000, mc=True),
         dict(name="conc4", regions=["A"], maxgen=2, handles=["a", "b"], maxops=4, maxhi=2, opkinds=base + ["tappend"],
-             prefixes=one, cap=4000, mc=True),
+             prefixes=[4, 5, 6, 9, 10, 11, 17], cap=4000, mc=True),
         dict(name="three", regions=["A", "B"], maxgen=1, handles=["a", "b", "c"], maxops=3, maxhi=1, opkinds=base,
              prefixes=two, cap=3000, mc=True),
         dict(name="three-pin", regions=["A", "B"], maxgen=1, handles=["a", "b", "c"], maxops=2, maxhi=1,
